@@ -61,9 +61,12 @@ impl SubscriptionManager {
             state.create_subscription(info, topic.clone(), self.push_registry.clone(), delegate)?
         };
 
-        topic
-            .attach_subscription(subscription.clone())
+        // The subscription is registered at this point, so attach it from a task of its
+        // own: the attach must complete even if the caller goes away while it is pending.
+        let attached = subscription.clone();
+        tokio::spawn(async move { topic.attach_subscription(attached).await })
             .await
+            .unwrap_or(Err(AttachSubscriptionError::Closed))
             .map_err(|e| match e {
                 AttachSubscriptionError::Closed => CreateSubscriptionError::Closed,
             })?;
